@@ -119,6 +119,17 @@ M = [
     ("conf-unset-prefix", ["C20"], "gwf/conf.py", "        if key in self.data.maps[0]:\n            del self.data[key]", "        for k in [k for k in self.data.maps[0] if k.startswith(key)]:\n            del self.data.maps[0][k]"),
     ("conf-beats-flag", ["C20"], "gwf/cli.py", "    backend = backend or config.get(\"backend\")", "    backend = config.get(\"backend\") or backend"),
     ("conf-off-is-false", ["C20"], "gwf/conf.py", "    if value in (\"false\", \"no\"):\n        return False", "    if value in (\"false\", \"no\", \"off\"):\n        return False"),
+    ("workers-ignore-n", ["C12"], "gwf/plugins/workers.py", "start_cluster(ctx.working_dir, num_workers, host, port)", "start_cluster(ctx.working_dir, multiprocessing.cpu_count(), host, port)"),
+    ("info-pretty-raw-containers", ["C03"], "gwf/plugins/info.py", "print_list(_flatten(target.outputs), as_filename=True)", "print_list(target.outputs, as_filename=True)"),
+    ("tid-restart-at-zero", ["C08"], "gwf/backends/local.py", "return itertools.count(time.time_ns() // 1000)", "return itertools.count()"),
+    ("killpg-only-shell", ["C13"], "gwf/backends/local.py", "            os.killpg(proc.pid, sig)", "            os.kill(proc.pid, sig)"),
+    ("atomic-replace-before-close", ["C09"], "gwf/utils.py", "        json.dump(obj, tmp_file, **kwargs)\n    os.replace(tmp_path, path)", "        json.dump(obj, tmp_file, **kwargs)\n        os.replace(tmp_path, path)"),
+    ("template-default-dot", ["C19"], "gwf/core.py", "    group: str = attrs.field(default=None)\n    working_dir: str = attrs.field(default=None)\n    protect: set = attrs.field(factory=set, converter=set)\n    spec: str = attrs.field(default=\"\")\n\n    def __attrs_post_init__", "    group: str = attrs.field(default=None)\n    working_dir: str = attrs.field(default=\".\")\n    protect: set = attrs.field(factory=set, converter=set)\n    spec: str = attrs.field(default=\"\")\n\n    def __attrs_post_init__"),
+    ("lsf-susp-failed", ["C08"], "gwf/backends/lsf.py", "    \"USUSP\": BackendStatus.RUNNING,", "    \"USUSP\": BackendStatus.FAILED,"),
+    ("sge-cores-keyerror", ["C10"], "gwf/backends/sge.py", "cores = target.options.get(\"cores\", 1)", "cores = target.options[\"cores\"]"),
+    ("cd-unquoted", ["C10"], "gwf/backends/slurm.py", "out.append(\"cd {}\".format(shlex.quote(target.working_dir)))", "out.append(\"cd {}\".format(target.working_dir))"),
+    ("summary-empty", ["C05"], "gwf/plugins/status.py", "    max_count = max(status_counts.values(), default=0)", "    _, max_count = status_counts.most_common()[0]"),
+    ("recursion-touch", ["C04"], "gwf/plugins/touch.py", "    for target in endpoints:\n        _visit(target)", "    def _rec(t):\n        for d in graph.dependencies[t]:\n            if d not in visited:\n                _rec(d)\n        if t not in visited:\n            visited.add(t)\n            _touch(t)\n\n    for target in endpoints:\n        _rec(target)"),
 ]
 
 
